@@ -461,9 +461,11 @@ _HEADER = {
     # header and subheader
     'target':   bytes([0x00, 0x02]),
     'target4':  bytes([0x01, 0x02]),
+    'target-asn4': bytes([0x02, 0x02]),
     # TODO: OriginASN4Number (2,2)
     'origin':   bytes([0x00, 0x03]),
     'origin4':  bytes([0x01, 0x03]),
+    'origin-asn4': bytes([0x02, 0x03]),
     # TODO: RouteTargetASN4Number (2,3)
     'redirect': bytes([0x80, 0x08]),
     'l2info':   bytes([0x80, 0x0A]),
@@ -476,8 +478,10 @@ _HEADER = {
 _ENCODE = {
     'target':   'HL',
     'target4':  'LH',
+    'target-asn4': 'LH',
     'origin':   'HL',
     'origin4':  'LH',
+    'origin-asn4': 'LH',
     'redirect': 'HL',
     'l2info':   'BBHH',
     'bandwidth': 'Hf',
@@ -533,8 +537,11 @@ def _encode(command: str, components: list[int], parts: list[str]) -> tuple[byte
         raise ValueError('invalid extended community type {}'.format(command))
 
     if command in ('origin', 'target'):
-        if components[0] > _SIZE_H or '.' in parts[0] or parts[0][-1] == 'L':
+        if '.' in parts[0]:
             command += '4'
+        elif components[0] > _SIZE_H or parts[0][-1] == 'L':
+            # RFC 5668: a 4-octet AS specific extended community is type 0x02, type 0x01 is IPv4 address specific
+            command += '-asn4'
 
     encoding = _ENCODE[command]
 
